@@ -46,6 +46,9 @@ def gen_cases(tier, seed):
         cases.append({'kind': 'parmappers', 'n': rng.choice([1, 10, 40]), 'concurrency': rng.choice([1, 2, 4]),
                       'return_x': rng.random() < 0.5, 'return_exceptions': rng.random() < 0.6,
                       'fail_rate': rng.choice([0, 0.15]), 'seed': rng.randrange(1 << 30)})
+    for cls in ('StopIteration', 'TimeoutError', 'queue.Empty'):
+        for rexc in (True, False):
+            cases.append({'kind': 'parmappers', 'n': 6, 'concurrency': 2, 'return_x': False, 'return_exceptions': rexc, 'fail_rate': 0, 'force_class': cls, 'seed': rng.randrange(1 << 30)})
     for i in range(8 if tier == 'quick' else 120):
         cases.append({'kind': 'servers', 'n': rng.choice([1, 12, 40]), 'capacity': rng.choice([1, 2, 4, 16]),
                       'return_x': rng.random() < 0.5, 'return_exceptions': rng.random() < 0.6,
@@ -191,8 +194,23 @@ def run_case(case):
 
         rng = random.Random(case['seed'])
         n = case['n']
-        items = [(i, rng.choice([0, 0.001, 0.003, 0.01]), rng.random() < case['fail_rate']) for i in range(n)]
+        # failing calls raise the harness's Boom or one of the classes the library and asyncio use for their own control flow
+        classes = [True, True, 'TimeoutError', 'queue.Empty', 'KeyError', 'EOFError', 'StopIteration', 'asyncio.QueueEmpty']
+        items = [(i, rng.choice([0, 0.001, 0.003, 0.01]), (rng.choice(classes) if case['seed'] % 2 else True) if rng.random() < case['fail_rate'] else False) for i in range(n)]
+        if case.get('force_class'):
+            items[2] = (items[2][0], items[2][1], case['force_class'])
         kw = dict(concurrency=case['concurrency'], return_x=case['return_x'], return_exceptions=case['return_exceptions'])
+
+        def canon(r):
+            # StopIteration cannot travel through a generator / coroutine / asyncio future as itself: every variant delivers it as *some*
+            # error in that element's place (the class differs by language rule); everything else must be identical
+            def c(z):
+                if isinstance(z, tuple) and len(z) == 3 and z[0] == 'EXC' and (z[1] == 'StopIteration' or (z[1] == 'RuntimeError' and 'StopIteration' in repr(z[2]))):
+                    return ('EXC', 'StopIteration-or-its-RuntimeError')
+                if isinstance(z, (tuple, list)):
+                    return type(z)(c(a) for a in z)
+                return z
+            return c(tuple(r))
         led = gates.Ledger()
 
         def sync_sync():
@@ -220,7 +238,7 @@ def run_case(case):
         obs['pairs'] += 3
         obs['outputs_compared'] += len(r0[0]) * 3
         for name, r in (('ParmapperAsync', r1), ('AsyncParmapper', r2), ('AsyncParmapperAsync', r3)):
-            if tuple(r) != tuple(r0):
+            if canon(r) != canon(r0):
                 viol.append({'mech': f'{name}/differs-from-Parmapper', 'msg': f'Parmapper {r0!r}'[:400] + f' vs {name} {r!r}'[:400]})
         sigs.append(hash(('parmappers', case['seed'])) & 0xFFFFFFFFFFFF)
         sample = {'kind': 'parmappers', 'n': n, 'concurrency': case['concurrency'], 'failing': sum(1 for x in items if x[2]), 'outputs': len(r0[0])}
